@@ -45,6 +45,11 @@ class Report:
     def bad(self, rule, key, text, where=None, witness=None):
         """a deviation: either a listed known finding (exact key) or a violation"""
         full = f"{rule}|{key}"
+        if 'UNDECIDED' in text:
+            # the analysis left its supported fragment: neither a pass nor a violation (DESIGN 2.4/5)
+            self.obligations.append({'rule': rule, 'key': key, 'ok': False, 'cfg': self.cur_cfg, 'nontrivial': False})
+            self.error(f"[{self.cur_cfg}] rule {rule} at {key}: {text[:400]}")
+            return
         self.obligations.append({'rule': rule, 'key': key, 'ok': False, 'cfg': self.cur_cfg, 'nontrivial': True})
         if full in self.known:
             self.known_seen.setdefault(full, {'text': text, 'where': where, 'cfgs': []})['cfgs'].append(self.cur_cfg)
